@@ -44,6 +44,10 @@ ANONU = TStruct("__anon_u", (TField("uq", INTS["uint32"]), TField("ub", TArr(INT
 ANONN = TStruct("__anon_n", (TField("na", INTS["uint8"]), TField("ni", ANONP), TField("nb", INTS["uint16"])))
 
 
+E48 = TEnum("E48", INTS["uint48"], (("A", 1), ("B", 2)))  # enums are aligned like their underlying integer (uint24 -> 4, uint48 -> 8), not to their size
+F24 = TEnum("F24", INTS["uint24"], (("P", 1), ("Q", 2)), flag=True)
+
+
 def layout_atoms():
     out = [A.atom(t) for t in INTS.values()] + [A.atom(t) for t in FLOATS.values()] + [A.atom(CHAR), A.atom(WCHAR), A.atom(A.E16s), A.atom(A.F32)]
     for t in (TArr(INTS["uint8"], 3), TArr(INTS["uint16"], 2), TArr(INTS["uint24"], 2), TArr(INTS["uint32"], 0), TArr(CHAR, 3), TArr(WCHAR, 2),
@@ -52,13 +56,14 @@ def layout_atoms():
     out += [A.atom(A.IN), A.atom(A.IN2), A.atom(A.NEST2), A.atom(A.UN), A.atom(UN8), A.atom(DEEP), A.atom(TPtr(INTS["uint8"])), A.atom(TPtr(A.IN)),
             A.atom(TArr(TPtr(INTS["uint16"]), 2))]
     out += [A.atom(ANONP), A.atom(TArr(ANONP, 2)), A.atom(ANONU), A.atom(ANONN)]
+    out += [A.atom(A.E24), A.atom(E48), A.atom(TArr(A.E24, 2))] + [A.atom(F24)]
     for a in out:
         A.register(a)
     return out
 
 
 def class_atoms():
-    names = ["uint8", "uint16", "uint32", "uint64", "uint24", "uint48", "uint128", "uint8[3]", "in_t", "in2_t", "un_t", "uint8*", "__anon_p"]
+    names = ["uint8", "uint16", "uint32", "uint64", "uint24", "uint48", "uint128", "uint8[3]", "in_t", "in2_t", "un_t", "uint8*", "__anon_p", "E24"]
     allat = {a.name: a for a in layout_atoms()}
     return [allat[n] for n in names]
 
